@@ -130,6 +130,66 @@ func (w *World) verifyFunc(key string) (g *Gen) {
 	return g
 }
 
+// verifyLemma discharges a lemma declared "induction n": the statement (requires ==> ensures) is
+// proved for n = 0 and, assuming it for some k >= 0 (other parameters fixed), for k+1. Only the
+// prelude and the declared axioms are available.
+func (w *World) verifyLemma(lm *SpecLemma) *Gen {
+	key := "lemma." + lm.Name
+	spec := &FuncSpec{Key: key, File: lm.File}
+	g := newGen(w, nil, spec)
+	g.topKey = key
+	where := fmt.Sprintf("%s:%d", lm.File, lm.Line)
+	defer func() {
+		if r := recover(); r != nil {
+			if se, ok := r.(specErr); ok {
+				g.oblige("binding", key+"/binding/spec", "true", "false", "lemma does not bind: "+string(se), where, nil)
+				return
+			}
+			panic(r)
+		}
+	}()
+	base := map[string]Val{}
+	found := false
+	for _, p := range lm.Params {
+		s, gt := w.specSort(p.Type, "")
+		base[p.Name] = Val{T: g.fresh("lp_"+p.Name, s), S: s, G: gt}
+		if p.Name == lm.Induct && s == "Int" {
+			found = true
+		}
+	}
+	if !found {
+		panic(specErr("induction parameter " + lm.Induct + " is not an int parameter"))
+	}
+	stmt := func(nTerm string) (string, string) {
+		vars := map[string]Val{}
+		for k, v := range base {
+			vars[k] = v
+		}
+		nv := base[lm.Induct]
+		nv.T = nTerm
+		vars[lm.Induct] = nv
+		st := State{}
+		le := &Env{g: g, vars: vars, st: st, old: st, pkg: ""}
+		var rs, es []string
+		for _, r := range lm.Requires {
+			rs = append(rs, le.tr(r).T)
+		}
+		for _, e := range lm.Ensures {
+			es = append(es, le.tr(e).T)
+		}
+		return and(rs...), and(es...)
+	}
+	r0, e0 := stmt("0")
+	g.oblige("lemma", key+"/base", "true", implies(r0, e0), lm.Src, where, nil)
+	k := g.fresh("lk", "Int")
+	g.fact("(>= " + k + " 0)")
+	rk, ek := stmt(k)
+	g.fact(implies(rk, ek))
+	r1, e1 := stmt("(+ " + k + " 1)")
+	g.oblige("lemma", key+"/step", "true", implies(r1, e1), lm.Src, where, nil)
+	return g
+}
+
 func (a *Act) resultVars(results []Val) map[string]Val {
 	rv := map[string]Val{}
 	sig := a.fn.Signature
